@@ -89,6 +89,7 @@ class Stream(OFD):
         # accounting
         self.tx_total = 0
         self.rx_total = 0
+        self.read_total = 0         # bytes the owner actually took out with recv()
         self.io_times: Optional[List[Tuple[float, str, int]]] = None
         self.on_data: Optional[Callable[[], None]] = None
         self.dead = False           # the connection no longer exists (reset seen, or closed both ways)
@@ -182,6 +183,7 @@ class Stream(OFD):
             else:
                 out = bytes(self.rx[:n])
                 del self.rx[:n]
+            self.read_total += len(out)
             self.world.touch()
             return out
         if self.fin_rcvd and not self.rst_rcvd:
